@@ -2001,8 +2001,7 @@ class Stream(AbstractStream):
         new._thermo = self._thermo
         new._imol = self._imol
         new._thermal_condition = self._thermal_condition
-        new._property_cache = {}
-        new._property_cache_key = None, None
+        new.reset_cache()
         new.equations = self.equations
         new.characterization_factors = self.characterization_factors
         return new
